@@ -1016,17 +1016,16 @@ func (w *walker) pure(p *path, f *frame, v ssa.Value) (int, string) {
 	case *ssa.ChangeType:
 		return w.value(f, t.X), ""
 	case *ssa.FieldAddr:
-		st, ok := derefStruct(t.X.Type())
-		if !ok {
+		if _, ok := derefStruct(t.X.Type()); !ok {
 			return 0, "field of a non-struct"
 		}
-		return w.tab.mk("field", st.Field(t.Field).Name(), w.value(f, t.X)), ""
+		// fields correspond by position (the port keeps the reference's layout; names are free)
+		return w.tab.mk("field", fmt.Sprintf("#%d", t.Field), w.value(f, t.X)), ""
 	case *ssa.Field:
-		st, ok := t.X.Type().Underlying().(*types.Struct)
-		if !ok {
+		if _, ok := t.X.Type().Underlying().(*types.Struct); !ok {
 			return 0, "field of a non-struct"
 		}
-		return w.tab.mk("fieldval", st.Field(t.Field).Name(), w.value(f, t.X)), ""
+		return w.tab.mk("fieldval", fmt.Sprintf("#%d", t.Field), w.value(f, t.X)), ""
 	case *ssa.IndexAddr:
 		return w.tab.mk("index", "", w.value(f, t.X), w.value(f, t.Index)), ""
 	case *ssa.Index:
